@@ -256,8 +256,11 @@ pub fn drive(args: &Args) -> i32 {
         let info = ["standard", "agile"][rng.gen_range(0..2)];
         let content = ["xls", "vba"][rng.gen_range(0..2)];
         let fp = ["none", "xor", "xor5", "rc4", "cryptoapi"][rng.gen_range(0..5)];
-        let k = match rng.gen_range(0..4) {
-            0 => json!({"kind": "ooxml", "size": size, "info": info, "layout": lay, "dataspaces": rng.gen_bool(0.5)}),
+        // the large packages: reversed placement, so that the directory sits at the highest sector ids
+        // (mapped by the last FAT sectors)
+        let big = size >= 7_000_000;
+        let k = match if big { 0 } else { rng.gen_range(0..4) } {
+            0 => json!({"kind": "ooxml", "size": size, "info": info, "layout": if big { "rev".to_string() } else { lay.clone() }, "dataspaces": rng.gen_bool(0.5)}),
             1 => json!({"kind": "plaincfb", "content": content, "layout": lay}),
             2 => json!({"kind": "biff", "filepass": fp, "after_writeprotect": rng.gen_bool(0.5), "sheets": rng.gen_range(1..3)}),
             _ => json!({"kind": "ods", "entries": (0..rng.gen_range(1..4)).map(|_| rng.gen_bool(0.4)).collect::<Vec<_>>()}),
